@@ -28,6 +28,8 @@ def shards(tier):
         for sg, dg in [("p2x2", "t3x2"), ("t3x2", "p2x2"), ("p2x2", "p2x2")]:
             for pb in ("source", "destination"):
                 out.append(dict(op="transfer", dev=dev, sgeo=sg, dgeo=dg, k=3 if tier == "quick" else 4, steps=1, partition_by=pb, washes=[1], ncand=2, wl_max=common.BIG * 2, geo=sg))
+        # a transfer whose volume is split into <= 3 steps: the books still show exactly the requested volume
+        out.append(dict(op="transfer", dev=dev, sgeo="p2x2", dgeo="p2x2", k=1, steps=3, partition_by="source", washes=[1], ncand=1, wl_max="sym", geo="p2x2", split=True))
         # removals / additions made by a distribute whose destination wells share a position (a well listed twice; virtual rows of one
         # trough column, which Fluent numbers alike): source and destinations are charged once per listed well
         for dg in ("t3x2", "p2x2"):
@@ -41,6 +43,8 @@ def weight(p):
 
 
 def engine_opts(p, tier):
+    if p.get("split"):
+        return dict(mode="real", int_lo=1, int_hi=p["steps"])
     return dict(mode="real")
 
 
